@@ -108,6 +108,199 @@ func (c *Ctx) ruleG7() {
 		})
 	}
 	c.floor("G7", "slot acquisitions", n, 1)
+	c.ruleG7b()
+}
+
+// ruleG7b: the converse of G7 — a path on which the acquisition FAILED passes no release.
+// A weighted semaphore panics ("released more than held") when more is released than was
+// acquired; a worker that gave up while waiting for its slot (request cancelled, store
+// closed) and then runs the common "done" code that gives a slot back brings the process down.
+func (c *Ctx) ruleG7b() {
+	for _, f := range c.RepoFns {
+		if c.isTestFile(f.Pos()) {
+			continue
+		}
+		k := 0
+		eachInstr(f, func(in ssa.Instruction) {
+			op := resourceOp(in)
+			if op == nil || !op.acquire {
+				return
+			}
+			call, isCall := in.(ssa.CallInstruction)
+			idx := k
+			k++
+			if !isCall || !hasErrResult(call) {
+				return
+			}
+			cons := fmt.Sprintf("%s→acquire(%s)#%d#failed-not-released", fnKey(f), op.res, idx)
+			isRel := func(x ssa.Instruction) bool {
+				o := resourceOp(x)
+				return o != nil && !o.acquire && o.res == op.res
+			}
+			hit, tr, n := c.releaseAfterFailure(call, isRel, 0)
+			if hit != nil {
+				c.bad("G7", cons, hit.Pos(), "a path on which this acquisition failed (request cancelled or store closed while waiting for a slot) goes on to release a slot: more is released than was acquired, which a weighted semaphore answers with a panic — closing a store in the middle of a replication with more queued than there are slots brings the process down", c.trailStr(tr)...)
+			} else {
+				c.ok("G7", cons, in.Pos(), fmt.Sprintf("no release is reachable from the failing branch of the acquisition (%d function(s) followed)", n))
+			}
+		})
+	}
+}
+
+// releaseAfterFailure follows the failing branch of call (in its function, then — when the
+// failure is handed up — in the callers after their own test of the error) and reports a
+// release it can reach. Values returned next to the error are nil on that branch, and so are
+// the parameters they are passed as: guards on them are honoured.
+func (c *Ctx) releaseAfterFailure(call ssa.CallInstruction, isRel instrPred, depth int) (ssa.Instruction, []token.Pos, int) {
+	f := call.Parent()
+	_, failBlocks, tested := okStart(call)
+	nilSet := map[ssa.Value]bool{}
+	if v := call.Value(); v != nil {
+		if refs := v.Referrers(); refs != nil {
+			for _, r := range *refs {
+				if ex, ok := r.(*ssa.Extract); ok && !isErrorType(ex.Type()) && canBeNil(ex.Type()) {
+					nilSet[ex] = true
+				}
+			}
+		}
+	}
+	followed := 1
+	if tested {
+		for _, fb := range failBlocks {
+			if hit, tr := c.mayRelease(f, atBlock(fb), isRel, nilSet, 0); hit != nil {
+				return hit, tr, followed
+			}
+		}
+	}
+	if depth >= 3 {
+		return nil, nil, followed
+	}
+	// does the failure leave f? (a failing return reachable from the failing branch, or the
+	// error handed up untested)
+	leaves := !tested
+	for _, fb := range failBlocks {
+		if hit, _ := findPath(f, atBlock(fb), nil, func(in ssa.Instruction) bool {
+			r, ok := in.(*ssa.Return)
+			return ok && !isCertainSuccess(r)
+		}, nil); hit != nil {
+			leaves = true
+		}
+	}
+	if !leaves {
+		return nil, nil, followed
+	}
+	for _, g := range c.RepoFns {
+		if c.isTestFile(g.Pos()) {
+			continue
+		}
+		var found ssa.Instruction
+		var ftr []token.Pos
+		eachCall(g, func(cs ssa.CallInstruction) {
+			if found != nil || cs.Common().StaticCallee() != f || !hasErrResult(cs) {
+				return
+			}
+			if _, isGo := cs.(*ssa.Go); isGo {
+				return
+			}
+			if _, isDefer := cs.(*ssa.Defer); isDefer {
+				return
+			}
+			h, tr, n := c.releaseAfterFailure(cs, isRel, depth+1)
+			followed += n
+			if h != nil {
+				found, ftr = h, tr
+			}
+		})
+		if found != nil {
+			return found, ftr, followed
+		}
+	}
+	return nil, nil, followed
+}
+
+func canBeNil(t types.Type) bool {
+	switch t.Underlying().(type) {
+	case *types.Pointer, *types.Interface, *types.Map, *types.Slice, *types.Chan, *types.Signature:
+		return true
+	}
+	return false
+}
+
+// isCertainSuccess: the return's error result is the nil constant.
+func isCertainSuccess(r *ssa.Return) bool {
+	if len(r.Results) == 0 {
+		return false
+	}
+	last := r.Results[len(r.Results)-1]
+	return isErrorType(last.Type()) && isNilConst(last)
+}
+
+// mayRelease: a release is reachable from start in f, following static repo callees (three
+// levels) and deferred calls, and not following edges that need a value of nilSet to be non-nil.
+func (c *Ctx) mayRelease(f *ssa.Function, start startPt, isRel instrPred, nilSet map[ssa.Value]bool, depth int) (ssa.Instruction, []token.Pos) {
+	cut := func(b *ssa.BasicBlock, si int) bool {
+		if len(b.Instrs) == 0 {
+			return false
+		}
+		iff, ok := b.Instrs[len(b.Instrs)-1].(*ssa.If)
+		if !ok {
+			return false
+		}
+		bo, ok := iff.Cond.(*ssa.BinOp)
+		if !ok || (bo.Op != token.NEQ && bo.Op != token.EQL) {
+			return false
+		}
+		x, y := bo.X, bo.Y
+		if isNilConst(x) {
+			x, y = y, x
+		}
+		if !isNilConst(y) {
+			return false
+		}
+		known := false
+		for a := range valueAliases(x) {
+			if nilSet[a] {
+				known = true
+			}
+		}
+		if !known {
+			return false
+		}
+		if bo.Op == token.NEQ {
+			return si == 0 // x != nil is false here
+		}
+		return si == 1
+	}
+	target := func(in ssa.Instruction) bool {
+		if isRel(in) {
+			return true
+		}
+		cs, ok := in.(ssa.CallInstruction)
+		if !ok || depth >= 3 {
+			return false
+		}
+		if _, isGo := in.(*ssa.Go); isGo {
+			return false
+		}
+		h := cs.Common().StaticCallee()
+		if h == nil || h.Blocks == nil || h.Pkg == nil || !inRepo(h.Pkg.Pkg) || h == f {
+			return false
+		}
+		ns := map[ssa.Value]bool{}
+		for i, a := range cs.Common().Args {
+			if i >= len(h.Params) {
+				break
+			}
+			for al := range valueAliases(a) {
+				if nilSet[al] {
+					ns[h.Params[i]] = true
+				}
+			}
+		}
+		hit, _ := c.mayRelease(h, entry, isRel, ns, depth+1)
+		return hit != nil
+	}
+	return findPath(f, start, nil, target, cut)
 }
 
 // newKindInstr: a site kind whose direct sites are arbitrary instructions.
@@ -192,6 +385,63 @@ func counterStep(in ssa.Instruction) (*types.Var, int) {
 	return fieldVarOf(fa), -1
 }
 
+// goAfter: the go statements that can execute after in, in in's function.
+func goAfter(in ssa.Instruction) []*ssa.Go {
+	var out []*ssa.Go
+	seen := map[*ssa.BasicBlock]bool{}
+	var walk func(b *ssa.BasicBlock, from int)
+	walk = func(b *ssa.BasicBlock, from int) {
+		for _, x := range b.Instrs[from:] {
+			if g, ok := x.(*ssa.Go); ok {
+				out = append(out, g)
+			}
+		}
+		for _, s := range b.Succs {
+			if !seen[s] {
+				seen[s] = true
+				walk(s, 0)
+			}
+		}
+	}
+	walk(in.Block(), instrIndex(in)+1)
+	return out
+}
+
+// queueEmptyCut prunes the edges taken when the replicator's queue is empty
+// (`if q.Len() > 0 {...}`: the false edge; `== 0`: the true edge).
+func queueEmptyCut(b *ssa.BasicBlock, si int) bool {
+	if len(b.Instrs) == 0 {
+		return false
+	}
+	iff, ok := b.Instrs[len(b.Instrs)-1].(*ssa.If)
+	if !ok {
+		return false
+	}
+	bo, ok := iff.Cond.(*ssa.BinOp)
+	if !ok {
+		return false
+	}
+	call, ok := bo.X.(*ssa.Call)
+	if !ok {
+		return false
+	}
+	g := call.Call.StaticCallee()
+	if g == nil || g.Name() != "Len" || g.Signature.Recv() == nil || !strings.Contains(typeStr(g.Signature.Recv().Type()), "processQueue") {
+		return false
+	}
+	z, isConst := constInt(bo.Y)
+	if !isConst || z != 0 {
+		return false
+	}
+	switch bo.Op {
+	case token.GTR, token.NEQ:
+		return si == 1
+	case token.EQL, token.LEQ:
+		return si == 0
+	}
+	return false
+}
+
 func (c *Ctx) ruleQ5() {
 	fns := c.fnsInPkg("stores/replicator")
 	// counters read by the idle test: the function that decides whether load-end may fire
@@ -246,6 +496,8 @@ func (c *Ctx) ruleQ5() {
 	for cv := range counters {
 		inc := newKindInstr("inc:"+cv.Name(), func(in ssa.Instruction) bool { v, d := counterStep(in); return v == cv && d == 1 })
 		dec := newKindInstr("dec:"+cv.Name(), func(in ssa.Instruction) bool { v, d := counterStep(in); return v == cv && d == -1 })
+		// a path on which the queue was found empty took no item: nothing is owed for it
+		dec.cut = queueEmptyCut
 		// where is it incremented?
 		var incFns []*ssa.Function
 		for _, f := range fns {
@@ -273,6 +525,36 @@ func (c *Ctx) ruleQ5() {
 				incAtEnqueue = true
 			}
 		}
+		// incremented where the worker is started: an increment followed, in the same function,
+		// by a `go` statement. The count then stands for "one per started worker" and the
+		// worker owes the decrement on every one of its paths, like a count taken at enqueue
+		spawned := map[*ssa.Function]bool{} // functions the go statements after an increment start
+		for _, f := range incFns {
+			eachInstr(f, func(in ssa.Instruction) {
+				if !inc.directInstr(in) {
+					return
+				}
+				for _, g := range goAfter(in) {
+					var started *ssa.Function
+					if mc, ok := g.Call.Value.(*ssa.MakeClosure); ok {
+						started, _ = mc.Fn.(*ssa.Function)
+					} else {
+						started = g.Call.StaticCallee()
+					}
+					if started != nil {
+						spawned[started] = true
+					}
+				}
+			})
+		}
+		incAtSpawn := func(w *ssa.Function) bool {
+			for s := range spawned {
+				if s == w || c.reachesStatic(s, func(call ssa.CallInstruction) bool { return call.Common().StaticCallee() == w }, 0) {
+					return true
+				}
+			}
+			return false
+		}
 		// workers: functions started with `go` (directly or through a closure) that reach a dequeue
 		for _, w := range fns {
 			if c.isTestFile(w.Pos()) || w.Parent() != nil {
@@ -294,9 +576,9 @@ func (c *Ctx) ruleQ5() {
 			cons := fnKey(w) + "#counter:" + cv.Name()
 			anyReturn := func(in ssa.Instruction) bool { _, ok := in.(*ssa.Return); return ok }
 			decVia := func(in ssa.Instruction) bool { return c.isSite(dec, in) }
-			if incAtEnqueue {
-				if hit, tr := findPath(w, entry, decVia, anyReturn, nil); hit != nil {
-					c.bad("Q5", cons, hit.Pos(), fmt.Sprintf("%s is incremented when an item is queued, but the worker started for that item can return without decrementing it (for instance when it gives its item back after a cancelled slot wait): the count never returns to zero, the idle test stays false, load-end never fires again and nothing fetched afterwards is ever joined", cv.Name()), c.trailStr(tr)...)
+			if incAtEnqueue || incAtSpawn(w) {
+				if hit, tr := findPath(w, entry, decVia, anyReturn, queueEmptyCut); hit != nil {
+					c.bad("Q5", cons, hit.Pos(), fmt.Sprintf("%s is incremented when an item is queued (or where its worker is started), but the worker started for that item can return without decrementing it (for instance when it gives its item back after a cancelled slot wait): the count never returns to zero, the idle test stays false, load-end never fires again and nothing fetched afterwards is ever joined", cv.Name()), c.trailStr(tr)...)
 				} else {
 					c.ok("Q5", cons, w.Pos(), cv.Name()+" is decremented on every path of the worker")
 				}
